@@ -60,9 +60,10 @@ NOALLOC = [
     ('k_na_text_21', 'messages/mod.rs', ['C18', 'C01'], 'bounded', 'no-allocator text capacity: a 21-character text field is an error, not a panic; one concrete input', 'quick', 600),
 ]
 
-for _n, _unw in [(0, 'quick'), (1, 'quick'), (2, 'quick'), (3, 'quick'), (4, 'quick'), (5, 'quick'), (6, 'quick'), (7, 'quick'), (8, 'quick'), (9, 'quick'), (12, 'quick'), (16, 'quick')]:
+# unarmor is proved by Verus for every length (loop invariant + bit-vector lemmas); these harnesses are an independent bounded cross-check
+for _n, _unw in [(0, 'quick'), (1, 'thorough'), (2, 'thorough'), (3, 'quick'), (4, 'thorough'), (5, 'quick'), (6, 'thorough'), (7, 'thorough'), (8, 'thorough'), (9, 'thorough'), (12, 'thorough'), (16, 'thorough')]:
     HARNESSES.append(('k_unarmor_%d' % _n, 'messages/mod.rs', ['C03', 'C01'], 'bounded',
-                      'unarmor: %d characters, all contents, fill 0..=5, every output bit against the reference packing' % _n, _unw, 900))
+                      'cross-check of the Verus proof: unarmor, %d characters, all contents, fill 0..=5, every output bit against the reference packing' % _n, _unw, 900))
 
 
 # properties whose checks re-validate the assumed nom contracts (the others rely on the same shim and say so)
